@@ -305,6 +305,9 @@ theorem view_glif {s : State} (h : Synced s) (ln gn : String) :
   by_cases hz : s.zip = true
   · have e := congrArg (fun d => glifOf d ln gn) (h.reader hz)
     simp only [stripTimes, glifOf_retime] at e
+    have r1 : glifOf { s.reader with parts := [] } ln gn = glifOf s.reader ln gn := rfl
+    have r2 : glifOf { s.disk with parts := [] } ln gn = glifOf s.disk ln gn := rfl
+    rw [r1, r2] at e
     simp only [hz, if_true]
     cases h1 : glifOf s.reader ln gn <;> cases h2 : glifOf s.disk ln gn <;> simp [h1, h2] at e ⊢
     exact e
@@ -1032,11 +1035,7 @@ theorem synced_touch_part {s : State} (h : Synced s) {p : Part} {f : File} (t : 
   layers := h.layers
   images := h.images
   data := h.data
-  reader := by
-    intro hz
-    rw [h.reader hz]
-    simp only [stripTimes, retime]
-    rw [retimeFiles_touch t hf]
+  reader := h.reader
   nodupOrder := h.nodupOrder
 
 theorem layerSynced_touch {ln : String} {dl : DLayer} {l : MLayer} (h : LayerSynced ln dl l) {gn : String} {f : File}
@@ -2039,6 +2038,111 @@ theorem report_after_xglyph_write {s : State} (h : Synced s) {ln gn : String} {l
   have h3 : layersAdded s = (report s).added := rfl
   have h4 : layersDeleted s = (report s).deleted := rfl
   rw [h2, h3, h4, hq]
+
+
+/-! ## Reloading a top-level object brings the font back in step -/
+
+theorem forceLoad_parts_spec (s : State) (p q : Part) (mp : MPart) (h : getPart (forceLoad s p) q = some mp) :
+    getPart s q = some mp ∨ mp.stamp = stampOf s.disk q := by
+  unfold forceLoad at h
+  by_cases e : p = q
+  · subst e
+    rw [getPart_setPart_self] at h
+    injection h with h
+    subst h
+    exact Or.inr rfl
+  · rw [getPart_setPart_ne _ _ e] at h
+    exact Or.inl h
+
+theorem reloadPart_parts_spec (s : State) (p q : Part) (mp : MPart) (h : getPart (reloadPart s p) q = some mp) :
+    getPart s q = some mp ∨ mp.stamp = stampOf s.disk q := by
+  unfold reloadPart at h
+  cases hg : getPart s p with
+  | some mp0 =>
+    simp only [hg] at h
+    by_cases e : p = q
+    · subst e
+      rw [getPart_setPart_self] at h
+      injection h with h
+      subst h
+      exact Or.inr rfl
+    · rw [getPart_setPart_ne _ _ e] at h
+      exact Or.inl h
+  | none =>
+    simp only [hg] at h
+    unfold loadPart at h
+    simp only [hg, Option.isSome_none, Bool.false_eq_true, if_false] at h
+    cases p
+    · exact forceLoad_parts_spec s _ q mp h
+    · rcases forceLoad_parts_spec _ _ q mp h with h1 | h1
+      · exact forceLoad_parts_spec s _ q mp h1
+      · exact Or.inr h1
+    · rcases forceLoad_parts_spec _ _ q mp h with h1 | h1
+      · exact forceLoad_parts_spec s _ q mp h1
+      · exact Or.inr h1
+    · exact forceLoad_parts_spec s _ q mp h
+    · exact forceLoad_parts_spec s _ q mp h
+
+theorem reloadPart_shape (s : State) (p : Part) :
+    reloadPart s p = { s with font := { s.font with parts := (reloadPart s p).font.parts } } := by
+  unfold reloadPart
+  cases hg : getPart s p with
+  | some mp0 => rfl
+  | none =>
+    simp only
+    unfold loadPart
+    simp only [hg, Option.isSome_none, Bool.false_eq_true, if_false]
+    cases p <;> rfl
+
+/-- From a font in step, after another program edited the top-level file of `p` in any way:
+`reloadInfo/…/reloadLib` for `p` brings the font back in step with the UFO. -/
+theorem synced_reload_after_xpart {s : State} (h : Synced s) {p : Part} {a : XAct} {t : Option Time} {d' : Disk}
+    (hx : xPart s.zip s.disk p a t = some d') : Synced (reloadPart { s with disk := d' } p) := by
+  obtain ⟨hd', hframe⟩ := xPart_eq hx
+  rw [reloadPart_shape]
+  generalize hP : (reloadPart { s with disk := d' } p).font.parts = P'
+  have hspec : ∀ q mp, AL.get? P' q = some mp → mp.stamp.data = diskData d' q := by
+    intro q mp hq
+    have hq' : getPart (reloadPart { s with disk := d' } p) q = some mp := by
+      unfold getPart; rw [hP]; exact hq
+    rcases reloadPart_parts_spec _ p q mp hq' with h1 | h1
+    · -- untouched by the reload: then it is not `p` (which the reload stamps) … or it agrees anyway
+      by_cases e : p = q
+      · subst e
+        -- `p` itself: after the reload its stamp is the file
+        obtain ⟨mp2, g1, _, g3, _⟩ := reloadPart_spec { s with disk := d' } p
+        rw [hq'] at g1
+        injection g1 with g1
+        subst g1
+        rw [g3]
+        exact stampOf_data d' p
+      · have hold : getPart s q = some mp := h1
+        rw [h.parts q mp hold]
+        unfold diskData
+        rw [hframe q e]
+    · rw [h1]
+      exact stampOf_data d' q
+  rw [hd'] at hspec ⊢
+  exact {
+    parts := fun q mp hg => hspec q mp hg
+    order := h.order
+    default := h.default
+    layers := h.layers
+    images := h.images
+    data := h.data
+    reader := h.reader
+    nodupOrder := h.nodupOrder }
+
+/-- the model's in-place save has no failing path except the two situations outside the modelled
+domain (finding F37's directory clash; a layer on disk the font does not hold) -/
+theorem save_error_outside (s : State) (tD tS : Time) (e : Err) (h : save s tD tS = .error e) : e = .outsideDomain := by
+  unfold save at h
+  simp only at h
+  split at h
+  · injection h with h; exact h.symm
+  · split at h
+    · cases h
+    · injection h with h; exact h.symm
 
 end Ext
 end DefconModel
